@@ -1447,7 +1447,15 @@ class Simplifier:
                     cond = cond.replace(this.pop().eq(cond))
 
                 if always_true(cond):
-                    return _parenthesize_lifted_operand(case.args["true"], parent)
+                    ifs = expression.args["ifs"]
+                    position = next(i for i, c in enumerate(ifs) if c is case)
+                    if position == 0:
+                        return _parenthesize_lifted_operand(case.args["true"], parent)
+
+                    # Earlier branches can still match, so this branch only becomes the default
+                    expression.set("default", case.args["true"])
+                    expression.set("ifs", ifs[:position])
+                    break
 
                 if always_false(cond):
                     case.pop()
